@@ -1199,6 +1199,21 @@ func init() {
 		m.K.touched = nil
 		return nil
 	})
+	// verifKernelEffectful: system calls in the trace that can change or observe file-system state
+	// relevant to other operations — everything except close, fstat and read-only opens of
+	// directories (helpers of a path lookup, invisible to concurrent operations of the API)
+	hreg("verifKernelEffectful", func(m *Machine, fn *ssa.Function, a []Value) Value {
+		n := 0
+		for _, t := range m.K.Trace {
+			switch {
+			case strings.HasPrefix(t, "close("), strings.HasPrefix(t, "fstat("):
+			case (strings.HasPrefix(t, "openat(") || strings.HasPrefix(t, "open(")) && traceOpenIsDirLookup(t):
+			default:
+				n++
+			}
+		}
+		return m.S.Const(64, uint64(n))
+	})
 	hreg("verifKernelCount", func(m *Machine, fn *ssa.Function, a []Value) Value {
 		name := concStrArg(m, a[0], "syscall name")
 		n := 0
@@ -1219,4 +1234,20 @@ func init() {
 		m.Sched.PreemptSyscalls = a[0].(*Term).IsTrue()
 		return nil
 	})
+}
+
+// traceOpenIsDirLookup: the trace entry is an open with O_DIRECTORY and without O_CREAT / write access.
+func traceOpenIsDirLookup(t string) bool {
+	i := strings.LastIndex(t, ",0x")
+	if i < 0 {
+		return false
+	}
+	j := i + 3
+	k := j
+	for k < len(t) && (t[k] >= '0' && t[k] <= '9' || t[k] >= 'a' && t[k] <= 'f') {
+		k++
+	}
+	var flags int
+	fmt.Sscanf(t[j:k], "%x", &flags)
+	return flags&oDIRECTORY != 0 && flags&(oCREAT|oWRONLY|oRDWR|oTRUNC) == 0
 }
